@@ -25,7 +25,10 @@ vars == <<l>>
 SawFlag(r) == \E k \in 1..Len(r.polls) : r.polls[k] = 1
 \* the token was set at some point of the run: before it, or by the k-th poll (meshes report
 \* only whether some poll saw the flag)
-WasSet(r) == r.cancel_after = 0 \/ (r.cancel_after > 0 /\ (Len(r.polls) >= r.cancel_after \/ SawFlag(r) \/ r.kind = "mesh"))
+\* cancel_after <= -1000: the token is set in the middle of a task (at a native bulk call of the JIT, reported by the
+\* bulk-driver hook on the working thread); such a run may return nothing or the complete result
+WasSet(r) == r.cancel_after = 0 \/ r.cancel_after <= -1000
+             \/ (r.cancel_after > 0 /\ (Len(r.polls) >= r.cancel_after \/ SawFlag(r) \/ r.kind = "mesh"))
 RunFails(r) ==
   IF r.result = "panic" THEN {"crash"} ELSE
      (IF r.result = "none" /\ ~WasSet(r) THEN {"none-without-cancel"} ELSE {})
